@@ -193,11 +193,29 @@ class UnitDomain(Domain):
         if isinstance(node, ast.AugAssign):
             o = it.obj(st, l)
             if o is not None and o.kind == "array":
-                # in-place arithmetic on a whole array: every element is updated
                 res = self.binop(it, op, V(self._deep(it, l, st)), r, None, st)
                 mo = it.mobj(st, l)
-                mo.elem = V(res.tag)
-                mo.slots = {}
+                tg = node.target
+                whole = isinstance(tg, (ast.Name, ast.Attribute))
+                if isinstance(tg, ast.Subscript):
+                    try:
+                        bo = it.obj(st, it.eval(tg.value, st))
+                    except Exception:  # noqa: BLE001
+                        bo = None
+                    if bo is None or bo.kind != "array":
+                        whole = True  # `d["key"] *= f`: the item of a container is the whole array
+                if isinstance(tg, ast.Subscript) and not whole:
+                    parts = tg.slice.elts if isinstance(tg.slice, ast.Tuple) else [tg.slice]
+                    whole = all((isinstance(p_, ast.Slice) and p_.lower is None and p_.upper is None and p_.step is None) or (isinstance(p_, ast.Constant) and p_.value is Ellipsis) for p_ in parts)
+                if whole:
+                    # in-place arithmetic on a whole array: every element is updated
+                    mo.elem = V(res.tag)
+                    mo.slots = {}
+                else:
+                    # `a[:, :2] *= f`, `a[0] *= f`: only part of the array is updated; the rest keeps its old unit
+                    old_ = mo.elem.tag if mo.elem is not None else self._deep(it, l, st)
+                    mo.elem = V(self.join(old_, res.tag))
+                    mo.slots = {k: V(self.join(v.tag, res.tag)) for k, v in mo.slots.items()}
                 return V(BOT, l.ref)
         lt, rt = self._deep(it, l, st), self._deep(it, r, st)
         if isinstance(op, (ast.Mult, ast.MatMult)):
